@@ -77,13 +77,22 @@ def _int(v, what):
         raise Invalid(f'{what} is not a number')
 
 
+RESOLVER = None      # host name -> list of addresses in the resolver's order of preference (set by the harness together with the scripted getaddrinfo)
+
+
 def _addr(v):
     if not isinstance(v, str) or '%' in v:
         raise Undetermined('address is not plain text')
     try:
         return ipaddress.ip_address(v)
     except ValueError:
-        raise Undetermined('host names need a resolver')
+        if RESOLVER is None:
+            raise Undetermined('host names need a resolver')
+        if v in RESOLVER:
+            return ipaddress.ip_address(RESOLVER[v][0])         # the documented behaviour: the first answer of the resolver
+        if v.endswith('.example'):
+            raise Invalid('host name that does not resolve')
+        raise Undetermined('text that is neither an address nor a scripted host name')
 
 
 def _net(v, default):
